@@ -217,6 +217,8 @@ def observe(ns, names) -> dict:
         "items_keys": [k.split(".") for k, _ in ns.items()],
         "vals": [[k, alpha_val(ns[".".join(k)])] for k in keys_b] + [[k.split("."), alpha_val(v)] for k, v in ns.items()]
                 + [[k, alpha_val(v)] for k, v in zip([k.split(".") for k in ns.keys()], ns.values())],
+        "sorted_keys": [k.split(".") for k in ns.get_sorted_keys()],
+        "flat_keys": [k.split(".") for k in vars(ns.as_flat())],
         "as_dict": [pc for pc in alpha_val(ns.as_dict()) if pc[0]],
         "n2d": [pc for pc in alpha_val(namespace_to_dict(ns)) if pc[0]],
         "d2n": alpha(dict_to_namespace(ns.as_dict())),
